@@ -36,6 +36,21 @@ func init() {
 			store(b.t, p, fr.i.deepCopyAll(b.t, b.v))
 			return iface{}
 		},
+		// handlePanic() recovers a panic in an ABCI call and then closes the
+		// application (databases, wallet, RPC, job bus): the node stops serving.
+		// Modelled as a halt outcome carrying the recovered panic.
+		"(*github.com/Oneledger/protocol/app.context).Close": func(fr *frame, args []value) value {
+			fr.i.x.stub("app.context.Close (halt outcome: application closed after a recovered panic)")
+			msg := "application closed"
+			if n := len(fr.i.x.recovered); n > 0 {
+				msg += " after recovered panic: " + fr.i.x.recovered[n-1]
+			}
+			fr.i.x.haltMsg = msg
+			if fr.i.x.panicSite == "" {
+				fr.i.x.panicSite = fr.i.x.lastRecoverSite
+			}
+			panic(exitPanic(70))
+		},
 		"reflect.TypeOf": func(fr *frame, args []value) value { return iface{} },
 		"time.Now": func(fr *frame, args []value) value {
 			fr.i.x.stub("time.Now (environment: fixed zero instant; must not reach consensus outputs)")
